@@ -38,10 +38,42 @@ impl Inh { pub fn zeroize(&mut self) { log(format!("I{}", self.0)); } }
 #[cfg(feature = "z")]
 impl zeroize::Zeroize for Inh { fn zeroize(&mut self) { log(format!("Z{}", self.0)); self.0 = 0; } }
 
-/// `PartialEq` but not `Eq`, `Clone` but not `Copy`.
-pub struct NotEq(pub u8);
-impl PartialEq for NotEq { fn eq(&self, o: &Self) -> bool { self.0 == o.0 } }
-impl Clone for NotEq { fn clone(&self) -> Self { NotEq(self.0) } }
+
+// Leaf-like probe types that LACK some traits: usable only for fields that are skipped for those traits
+// ("the type of a skipped field need not implement the traits it is skipped for", C06/C17).
+// Everything they do implement behaves exactly like `Leaf` (same log entries, same rendering).
+macro_rules! leaf_like {
+    ($name:ident; $($tr:ident),*) => {
+        pub struct $name(pub u8);
+        $(leaf_like!(@impl $name $tr);)*
+    };
+    (@impl $n:ident Cmp) => {
+        impl PartialEq for $n { fn eq(&self, o: &Self) -> bool { self.0 == o.0 && self.0 != 99 } }
+        impl Eq for $n {}
+        impl PartialOrd for $n { fn partial_cmp(&self, o: &Self) -> Option<Ordering> { if self.0 == 99 || o.0 == 99 { None } else { Some(self.0.cmp(&o.0)) } } }
+        impl Ord for $n { fn cmp(&self, o: &Self) -> Ordering { self.0.cmp(&o.0) } }
+    };
+    (@impl $n:ident PartialOnly) => {
+        impl PartialEq for $n { fn eq(&self, o: &Self) -> bool { self.0 == o.0 && self.0 != 99 } }
+        impl PartialOrd for $n { fn partial_cmp(&self, o: &Self) -> Option<Ordering> { if self.0 == 99 || o.0 == 99 { None } else { Some(self.0.cmp(&o.0)) } } }
+    };
+    (@impl $n:ident Hash) => { impl Hash for $n { fn hash<H: Hasher>(&self, s: &mut H) { s.write_u8(self.0) } } };
+    (@impl $n:ident Clone) => {
+        impl Clone for $n { fn clone(&self) -> Self { log(format!("CF{}", self.0)); $n(self.0) } }
+        impl Copy for $n {}
+    };
+    (@impl $n:ident Debug) => { impl fmt::Debug for $n { fn fmt(&self, f: &mut fmt::Formatter<'_>) -> fmt::Result { write!(f, "L{}", self.0) } } };
+    (@impl $n:ident Default) => { impl Default for $n { fn default() -> Self { $n(7) } } };
+    (@impl $n:ident Zeroize) => {
+        #[cfg(feature = "z")]
+        impl zeroize::Zeroize for $n { fn zeroize(&mut self) { log(format!("Z{}", self.0)); self.0 = 0; } }
+    };
+}
+leaf_like!(NoCmp; Clone, Debug, Default, Zeroize);                 // no PartialEq/Eq/PartialOrd/Ord/Hash: needs skip or skip(EqHashOrd)
+leaf_like!(NoHash; Cmp, Clone, Debug, Default, Zeroize);           // no Hash: needs skip, skip(Hash) or skip(EqHashOrd)
+leaf_like!(NoDbg; Cmp, Hash, Clone, Default, Zeroize);             // no Debug: needs skip or skip(Debug)
+leaf_like!(NoZ; Cmp, Hash, Clone, Debug, Default);                 // no Zeroize: needs skip or skip(Zeroize)
+leaf_like!(NoEq; PartialOnly, Hash, Clone, Debug, Default, Zeroize); // PartialEq/PartialOrd but not Eq/Ord (like f32)
 
 /// Implements nothing.
 pub struct Nothing(pub u8);
